@@ -827,17 +827,20 @@ func (h *c03Case) taintWindow(q *c03Quota) {
 	}
 }
 
-// signature suffix when the quota (or an ancestor) saw a Reserve / Unreserve of a parked pod inside the window: the
-// defect fixed by koordinator commit 8efd15b shows up as a wrong verdict on exactly these quotas
-func (h *c03Case) windowSuffix(q *c03Quota) string {
+// signature to use when the quota (or an ancestor) saw a Reserve / Unreserve of a parked pod inside the window: the
+// defect fixed by koordinator commit 8efd15b (ReservePod / UnreservePod were no-ops for such a pod) shows up as a
+// wrong verdict or an overshoot on exactly these quotas; the kind of symptom is in the message
+const c03WindowSig = "migration-window:reserve-or-unreserve-of-parked-pod-not-applied-to-holding-quota"
+
+func (h *c03Case) windowSig(q *c03Quota, sig string) string {
 	tainted := q.Window
 	for _, a := range h.chain(q) {
 		tainted = tainted || a.Window
 	}
 	if tainted {
-		return ":after-reserve-or-unreserve-of-parked-pod-in-migration-window"
+		return c03WindowSig
 	}
-	return ""
+	return sig
 }
 
 // the pod now counts against the quota its label names (migration cycle, or a pod update that lands in the window)
@@ -1186,10 +1189,11 @@ func (h *c03Case) schedule(t *rapid.T, pd *c03Pod, midCycle func()) {
 			sig = "admit:ancestor-over-limit"
 		}
 		if sig != "" {
+			kind := sig
 			if !strings.Contains(sig, "default-or-system") {
-				sig += h.windowSuffix(own)
+				sig = h.windowSig(own, sig)
 			}
-			if h.c.Violation(t, sig, "pod %s (request %s, nonPreemptible=%v) admitted into %s although %v;%s %s", pd.Name, c03Str(pd.Req), pd.NonPre,
+			if h.c.Violation(t, sig, "[%s] pod %s (request %s, nonPreemptible=%v) admitted into %s although %v;%s %s", kind, pd.Name, c03Str(pd.Req), pd.NonPre,
 				own.Name, vb.why, h.describeCode(pd, before), h.dump()) {
 				h.dead = true
 				return
@@ -1225,7 +1229,7 @@ func (h *c03Case) schedule(t *rapid.T, pd *c03Pod, midCycle func()) {
 		h.logf("schedule %s -> rejected (%s)", pd.Name, status.Message())
 		// rejected => at least one inequality is false
 		if vb.own && vb.np && vb.ancWide && va.own && va.np && va.ancWide {
-			if h.c.Violation(t, "reject:no-limit-exceeded"+h.windowSuffix(own), "pod %s (quota %s, request %s, nonPreemptible=%v) rejected with %q although no limit would be exceeded;%s %s",
+			if h.c.Violation(t, h.windowSig(own, "reject:no-limit-exceeded"), "[reject:no-limit-exceeded] pod %s (quota %s, request %s, nonPreemptible=%v) rejected with %q although no limit would be exceeded;%s %s",
 				pd.Name, own.Name, c03Str(pd.Req), pd.NonPre, status.Message(), h.describeCode(pd, before), h.dump()) {
 				h.dead = true
 				return
@@ -1280,9 +1284,9 @@ func (h *c03Case) invariant(t *rapid.T) {
 				if q.Special && h.rtOn {
 					sig = "invariant:used-above-max:default-or-system-quota-with-runtime-quota-on"
 				} else {
-					sig += h.windowSuffix(q)
+					sig = h.windowSig(q, sig)
 				}
-				if h.c.Violation(t, sig, "quota %s %s: plugin shows used %d, assigned pods sum to %d, max %d (max never lowered); runtime=%s; %s",
+				if h.c.Violation(t, sig, "[invariant:used-above-max] quota %s %s: plugin shows used %d, assigned pods sum to %d, max %d (max never lowered); runtime=%s; %s",
 					name, d, shown, mu[d], q.Max[d], c03Str(c03FromList(s.Runtime)), h.dump()) {
 					h.dead = true
 				}
